@@ -122,9 +122,9 @@ func NewMuxer(ctx context.Context, w io.Writer, opts ...func(*Muxer)) *Muxer {
 // if es.ElementaryPID is zero, it will be generated automatically
 func (m *Muxer) AddElementaryStream(es PMTElementaryStream) error {
 	if es.ElementaryPID != 0 {
-		// A PID is a 13-bit value, and PIDs below 0x20 are reserved for PSI/SI (ISO 13818-1 table 2-3, EN 300 468 table 1):
+		// A PID is a 13-bit value other than the null PID, and PIDs below 0x20 are reserved for PSI/SI (ISO 13818-1 table 2-3, EN 300 468 table 1):
 		// the demuxer would parse their payload as tables
-		if es.ElementaryPID > PIDNull || es.ElementaryPID < 0x20 {
+		if es.ElementaryPID >= PIDNull || es.ElementaryPID < 0x20 {
 			return ErrPIDInvalid
 		}
 		// The PID must be used neither by another elementary stream nor by the PMT
